@@ -83,6 +83,14 @@ def ref_watch(reports, dmap):
         t_prev = t
         if kind == "ignored":
             continue
+        if kind == "reset":
+            # the device was lost and re-opened: a new watcher starts from scratch - nothing announced on the old
+            # connection may colour what is decoded on the new one (histories are generated so that nothing is
+            # pending when the device disappears)
+            pending = None
+            dt = 0
+            t_prev = None
+            continue
         if pending is not None:
             cmd, pk = pending
             if pk == "twice":
@@ -184,6 +192,12 @@ def run_case(case):
             if drv in sc.HID:
                 if subs[k]["shared"]:       # a subscriber keeps its kind when it re-subscribes
                     handles[k] = sim.driver.bus_traffic.register(shared_fn)
+                elif ev.get("raises"):
+                    def bad(d, c, r, e, k=k, m=ev["raises"]):
+                        subs[k]["log"].append((sim.loop.time(), cmd_fp(c), resp_fp(r), bool(e)))
+                        if len(subs[k]["log"]) % m == 0:
+                            raise RuntimeError("scripted subscriber failure")
+                    handles[k] = sim.driver.bus_traffic.register(bad)
                 else:
                     handles[k] = sim.driver.bus_traffic.register(
                         lambda d, c, r, e, k=k: subs[k]["log"].append((sim.loop.time(), cmd_fp(c), resp_fp(r), bool(e))))
@@ -217,12 +231,17 @@ def run_case(case):
     for ci, rec in enumerate(obs["callers"]):
         if rec["status"] not in ("ok",):
             out.append(("C20:%s:own-send-%s" % (drv, rec["status"]), "own send %d: %s %s" % (ci, rec["status"], rec.get("exception_repr", ""))))
-    if obs["loop_exceptions"]:
-        out.append(("C20:%s:unhandled-exception" % drv, "; ".join(obs["loop_exceptions"][:2])))
+    unexpected = [x for x in obs["loop_exceptions"] if "scripted subscriber failure" not in x]
+    if unexpected:
+        out.append(("C20:%s:unhandled-exception" % drv, "; ".join(unexpected[:2])))
     if out:
         return out
     if drv == "tridonic":
-        exp = ref_watch(tridonic_reports(obs["delivered"]), dmap)
+        reports = tridonic_reports(obs["delivered"])
+        reopened = [w["t"] for w in obs["wire"] if w["kind"] == "open"][1:]
+        if reopened:
+            reports = sorted(reports + [(t, "reset", 0, 0) for t in reopened], key=lambda x: x[0])
+        exp = ref_watch(reports, dmap)
         own = {k: v for k, v in subs.items() if not v.get("shared")}
         shared = {k: v for k, v in subs.items() if v.get("shared")}
         out = compare_callbacks(drv, exp, own, obs)
@@ -431,12 +450,36 @@ def case_strategy(draw, driver=None):
             callers.append({"kind": "send", "cmds": [c], "t0": round(t, 4)})
             t += 0.2
         t += draw(st.sampled_from([0.03, 0.06, 0.1, 0.31, 0.5, 0.9]))
+    if drv == "tridonic" and draw(st.integers(0, 3)) == 0:
+        # the gateway is unplugged and comes back in the middle of the history.  The last frame seen on the old
+        # connection leaves nothing pending (plain command or ENABLE DEVICE TYPE), nothing is in flight.
+        t += 0.35
+        last = draw(st.sampled_from([0xC108, 0xC106, 0xC101, 0xC108, 0x0105]))
+        inject.append({"t": round(t, 4), "kind": "forward", "bits": 16, "value": last})
+        t += 0.35
+        events.append({"t": round(t, 4), "what": "lose", "notify": draw(st.booleans())})
+        if not events[-1]["notify"]:
+            events.append({"t": round(t + 0.05, 4), "what": "hup"})
+        events.append({"t": round(t + 0.3, 4), "what": "restore"})
+        t += 2.0           # reconnection attempt one interval (1 s) after the loss was noticed, then the handshake
+        for j in range(draw(st.integers(1, 3))):
+            dt_, ext = draw(st.sampled_from(DTEXT))
+            if j == 0 or draw(st.booleans()):
+                inject.append({"t": round(t, 4), "kind": "forward", "bits": 16, "value": ext})    # no announcement
+            else:
+                tr = draw(transaction())
+                for (d_, kind, bits, value) in tr:
+                    inject.append({"t": round(t + d_, 4), "kind": kind, "bits": bits, "value": value})
+                t += max([x[0] for x in tr] + [0])
+            t += draw(st.sampled_from([0.05, 0.31, 0.5]))
     # subscribers: some from the start, some joining / leaving at odd instants
     nsub = draw(st.integers(0, 3))
     for k in range(nsub):
         t_in = draw(st.sampled_from([-0.01, -0.01, 0.07131, 0.41773, 0.93917]))
         events.append({"t": t_in, "what": "call", "op": "sub", "id": k})
-        if drv == "tridonic" and k >= 1 and draw(st.integers(0, 2)) == 0:
+        if drv in ("tridonic", "hasseb") and draw(st.integers(0, 4)) == 0:
+            events[-1]["raises"] = draw(st.integers(1, 3))      # this subscriber's callback fails on every m-th report
+        elif drv == "tridonic" and k >= 1 and draw(st.integers(0, 2)) == 0:
             events[-1]["shared"] = True
             if draw(st.booleans()):
                 events.append({"t": t_in, "what": "call", "op": "sub", "id": k + 10, "shared": True})
@@ -465,6 +508,10 @@ def features(case):
         f.append("has:event")
     if case["callers"]:
         f.append("has:own-send")
+    if any(e.get("what") == "lose" for e in case.get("events", [])):
+        f.append("device-lost-and-back-mid-history")
+    if any(e.get("raises") for e in case.get("events", [])):
+        f.append("subscriber-whose-callback-raises")
     if any(e.get("op") == "unsub" for e in case.get("events", [])):
         f.append("subscriber-leaves")
     if any(e.get("op") == "sub" and e["t"] > 0 for e in case.get("events", [])):
